@@ -6,6 +6,8 @@ import (
 	"context"
 	"sync"
 
+	proto "github.com/kubewharf/kubebrain-client/api/v2rpc"
+
 	"github.com/kubewharf/kubebrain/pkg/backend/tso"
 	"github.com/kubewharf/kubebrain/pkg/zzmodel"
 	"github.com/kubewharf/kubebrain/pkg/zzverif"
@@ -155,5 +157,58 @@ func VerifC04Resolve() {
 	rev = w.create("wrapped", vNames[2])
 	zzverif.WaitIdle()
 	zzverif.Assert(w.b.GetCurrentRevision() == rev, "a write issued after the ring wrapped becomes readable")
+	zzverif.Cover("done")
+}
+
+// VerifC04HeldWrite: a node built by the real NewBackend with a small event cache (the
+// configuration is symbolic-free but unusual: 2..3 entries); the storage transaction of one write
+// is held (forced by the harness, no scheduler involved) while 3 later writes to other keys are
+// stored and acknowledged: the readable revision stays below the held write, and once it is
+// released everything becomes readable and watchable, in order.
+func VerifC04HeldWrite() {
+	w := vNewWorld(1)
+	hold := make(chan struct{})
+	var heldRev uint64
+	first := true
+	w.s.OnBegin = func(ops []zzmodel.Op) {
+		if first {
+			first = false
+			heldRev = w.opRev(ops)
+			<-hold
+		}
+	}
+	ch, err := w.b.Watch(vCtx(), "/r/", 0)
+	zzverif.Assert(err == nil, "watch without start revision is accepted")
+	hval := zzverif.Bytes("held.val", 1)
+	done := make(chan uint64, 1)
+	go func() {
+		resp, err := w.b.Create(vCtx(), &proto.CreateRequest{Key: vNames[0], Value: hval})
+		zzverif.Assert(err == nil && resp.Succeeded, "held create succeeds in the end")
+		done <- resp.Header.Revision
+	}()
+	zzverif.WaitIdle() // the write has its revision and is stuck in the engine
+	w.dealt++
+	zzverif.Assert(heldRev == w.dealt, "the held write was stamped")
+	n := zzverif.Param("later", 3)
+	for i := 0; i < n; i++ {
+		w.create("l"+string(rune('0'+i)), vNames[1+i%3])
+		zzverif.WaitIdle()
+		zzverif.Assert(w.b.GetCurrentRevision() < heldRev, "the readable revision never reaches a write whose storage transaction has not finished")
+	}
+	got, _ := vDrainEvents(ch)
+	zzverif.Assert(len(got) == 0, "nothing is announced beyond a write whose storage transaction has not finished")
+	close(hold)
+	rev := <-done
+	zzverif.Assert(rev == heldRev, "held create: header carries its revision")
+	zzverif.WaitIdle()
+	zzverif.Assert(w.b.GetCurrentRevision() == w.dealt, "once all requests returned the readable revision reaches the highest revision handed out")
+	w.g.Append(vNames[0], heldRev, hval, false)
+	w.evs = append([]vEvent{{proto.Event_CREATE, vNames[0], hval, heldRev, heldRev}}, w.evs...)
+	got, closed := vDrainEvents(ch)
+	zzverif.Assert(!closed, "watch of a consumer that keeps up stays open")
+	w.checkEvents(got, 0, 0, "/r/")
+	for i := 0; i < 4; i++ {
+		w.checkGet(vNames[i], 0)
+	}
 	zzverif.Cover("done")
 }
